@@ -30,7 +30,7 @@ git -C /repo worktree remove --force $W
 cd /repo && git apply $OUT/patch.diff || { echo "patch does not apply to /repo"; exit 2; }
 cd /verif
 bin/vcheck $PID --tier quick > $OUT/vcheck.quick.log 2>&1; Q=$?
-git -C /repo checkout -- . ; git -C /repo status --short
+git -C /repo checkout -- . ; git -C /repo clean -fdq rlib ; git -C /repo status --short
 python3 - "$NAME" "$PID" "$BASE" "$EXIST" "$WITH" "$Q" "$PKG" "$DEST" <<'PY'
 import json,sys,re,os
 name,pid,base,exist,withc,q,pkg,dest=sys.argv[1:9]
